@@ -926,7 +926,8 @@ def corpus_cases():
     if d.exists():
         for f in sorted(d.glob("*.ops")):
             lines = [l for l in f.read_text().splitlines() if l.strip() and not l.startswith("#")]
-            out.append([begin_line(l.split()[1]) if l.startswith("begin") else l for l in lines])
+            out.append([begin_line(l.split()[1]) + (" " + DEATH if l.split()[-1] == DEATH else "") if l.startswith("begin") else l
+                        for l in lines])
     return out
 
 
